@@ -9,15 +9,19 @@ namespace hugestr {
 struct Scope {
     size_t saved_max;
     bool saved_lazy;
-    Scope() : saved_max(vf::g_alloc.max_request), saved_lazy(vf::g_alloc.huge_lazy)
+    bool saved_alias;
+    // alias = true: very large blocks are fully writable but share a 16 MiB window of real memory (alloc.h)
+    explicit Scope(bool alias = false) : saved_max(vf::g_alloc.max_request), saved_lazy(vf::g_alloc.huge_lazy), saved_alias(vf::g_alloc.huge_alias)
     {
         vf::g_alloc.max_request = ~size_t(0) / 2;
-        vf::g_alloc.huge_lazy = true;
+        vf::g_alloc.huge_lazy = !alias;
+        vf::g_alloc.huge_alias = alias;
     }
     ~Scope()
     {
         vf::g_alloc.max_request = saved_max;
         vf::g_alloc.huge_lazy = saved_lazy;
+        vf::g_alloc.huge_alias = saved_alias;
     }
 };
 template <class Mark>
@@ -28,4 +32,18 @@ inline ST::string make(size_t n, Mark &&mark)
     mark(cb.data());
     return ST::string::from_validated(std::move(cb));
 }
+// a read-mostly array of n bytes that costs address space only (zero until written)
+struct LazyBytes {
+    char *p;
+    size_t n;
+    explicit LazyBytes(size_t n_) : n(n_)
+    {
+        p = (char *)mmap(nullptr, n + 4096, PROT_READ | PROT_WRITE, MAP_PRIVATE | MAP_ANONYMOUS | MAP_NORESERVE, -1, 0);
+        if (p == (char *)MAP_FAILED) p = nullptr;
+    }
+    ~LazyBytes()
+    {
+        if (p) munmap(p, n + 4096);
+    }
+};
 }  // namespace hugestr
